@@ -74,14 +74,16 @@ Proof.
   exists s'. split; [exact Hs'|]. apply IH; assumption.
 Qed.
 
-Definition plain_ok (o : op) (_ : res) : bool := put_plain o.
+Definition plain_ok (o : op) (_ : res) : bool := put_plain o || match o with Makedirs _ _ => true | _ => false end.
 Definition PPL := asafe_logic (sstep plain_ok).
 Lemma ppl_ok o : put_plain o = true -> OKop PPL o.
-Proof. intros H. apply accepted_sstep. intros r _. exact H. Qed.
+Proof. intros H. apply accepted_sstep. intros r _. unfold plain_ok. rewrite H. reflexivity. Qed.
+Lemma ppl_mk p : OKop PPL (Makedirs p 448).
+Proof. apply accepted_sstep. intros r _. reflexivity. Qed.
 
 Lemma plain_keeps_inv k o r s : plain_ok o r = true -> Inv k s -> exists s', put_step s o r = Some s' /\ Inv k s'.
 Proof.
-  unfold plain_ok. intros Hp [Hm [Hr Hn]]. destruct o; try discriminate Hp; try (exists s; split; [reflexivity|repeat split; assumption]).
+  unfold plain_ok. intros Hp [Hm [Hr Hn]]. destruct o; try discriminate Hp; try (exists s; split; [reflexivity|repeat split; assumption]); simpl in Hp; rewrite ?orb_false_r in Hp.
   - (* Lexists *) simpl. destruct r as [|[|]| | | | | |]; try (exists s; split; [reflexivity|repeat split; assumption]).
     destruct (p_res s) as [[q ph]|] eqn:Er; [|exists s; split; [reflexivity|repeat split; auto]].
     destruct (str_eqb p q); eexists; (split; [reflexivity|]); repeat split; simpl; auto.
@@ -202,7 +204,7 @@ Proof.
   intros s1 r1 [Hs1 _]. cbv beta. destruct r1; [exact Hs1|].
   apply wp_bind. eapply wp_mono; [| |apply (wp_plain k _ (fun _ => True) s1 (safe_gate PPL ppl_ok volume c (po_environ o)) Hs1)]; [|auto].
   intros s2 r2 [Hs2 _]. cbv beta. destruct r2; [exact Hs2|].
-  apply wp_bind. eapply wp_mono; [| |apply (wp_plain k _ (fun _ => True) s2 (safe_make_candidate_dirs PPL ppl_ok c) Hs2)]; [|auto].
+  apply wp_bind. eapply wp_mono; [| |apply (wp_plain k _ (fun _ => True) s2 (safe_make_candidate_dirs PPL ppl_ok ppl_mk c) Hs2)]; [|auto].
   intros s3 r3 [Hs3 _]. cbv beta. destruct r3; [exact Hs3|].
   apply wp_bind. eapply wp_mono; [| |apply (wp_plain k _ _ s3 (safe_make_trashinfo_data PPL ppl_ok path c) Hs3)]; [|auto].
   intros s4 r4 [Hs4 Hd]. cbv beta. destruct r4 as [data|]; [|exact Hs4]. destruct Hd as [Hparse _].
